@@ -19,7 +19,9 @@
 using namespace psv;
 
 // ------------------------------------------------------------------------------------------------ libc layer
-struct Op { char kind; long off; long len; std::vector<unsigned char> data; };
+struct Op { char kind; long off; long len; std::vector<unsigned char> data; const char* step; int stepno; };
+static const char* g_cur = "-";   // the top-level cfitsio call (step) in progress
+static int g_curno = -1;
 static std::vector<Op> g_log;
 static bool g_win = false;          // recording window (only cfitsio does I/O inside it)
 static bool g_keep = false;         // keep op data
@@ -33,7 +35,7 @@ enum FaultKind { F_ENOSPC = 0, F_EFBIG = 1, F_SHORT = 2, F_FLUSH = 3, F_CLOSE = 
 static const char* kindname[] = {"enospc", "efbig", "short", "fflush", "fclose", "enospc_sticky"};
 
 static void logop(char k, long off, long len, const void* p) {
-  Op o; o.kind = k; o.off = off; o.len = len;
+  Op o; o.kind = k; o.off = off; o.len = len; o.step = g_cur; o.stepno = g_curno;
   if (g_keep && p) o.data.assign((const unsigned char*)p, (const unsigned char*)p + len);
   g_log.push_back(o);
 }
@@ -92,68 +94,68 @@ static int g_depth = 0;
 static int g_step_fail = -1;   // index of the cfitsio step to fail directly
 static int g_step_fired = 0;
 #define TOP (g_win && g_depth == 0)
-struct Depth { Depth() { g_depth++; } ~Depth() { g_depth--; } };
+struct Depth { Depth(const char* n) { g_depth++; g_cur = n; g_curno = (int)g_trace.size(); } ~Depth() { g_depth--; g_cur = "-"; g_curno = -1; } };
 static bool inject_here() { return (int)g_trace.size() == g_step_fail; }
 
 extern "C" int remove(const char* path) {
   static auto real = (int (*)(const char*))dlsym(RTLD_NEXT, "remove");
-  if (TOP) { Depth d; int r = real(path); g_trace.push_back({"remove", r}); return r; }
+  if (TOP) { Depth d("remove"); int r = real(path); g_trace.push_back({"remove", r}); return r; }
   if (g_win) logop('X', 0, 0, nullptr);
   return real(path);
 }
 extern "C" int ffinit(fitsfile** fptr, const char* name, int* status) {
   static auto real = (int (*)(fitsfile**, const char*, int*))dlsym(RTLD_NEXT, "ffinit");
   if (!TOP) return real(fptr, name, status);
-  Depth d;
+  Depth d("init");
   if (inject_here()) { g_step_fired++; *fptr = nullptr; *status = FILE_NOT_CREATED; g_trace.push_back({"init", *status}); return *status; }
   int r = real(fptr, name, status); g_trace.push_back({"init", r}); return r;
 }
 extern "C" int ffimem(fitsfile** fptr, void** buf, size_t* sz, size_t delta, void* (*re)(void*, size_t), int* status) {
   static auto real = (int (*)(fitsfile**, void**, size_t*, size_t, void* (*)(void*, size_t), int*))dlsym(RTLD_NEXT, "ffimem");
   if (!TOP) return real(fptr, buf, sz, delta, re, status);
-  Depth d;
+  Depth d("imem");
   if (inject_here()) { g_step_fired++; *fptr = nullptr; *status = MEMORY_ALLOCATION; g_trace.push_back({"imem", *status}); return *status; }
   int r = real(fptr, buf, sz, delta, re, status); g_trace.push_back({"imem", r}); return r;
 }
 extern "C" int ffcrim(fitsfile* f, int bitpix, int naxis, long* naxes, int* status) {
   static auto real = (int (*)(fitsfile*, int, int, long*, int*))dlsym(RTLD_NEXT, "ffcrim");
   if (!TOP) return real(f, bitpix, naxis, naxes, status);
-  Depth d;
+  Depth d("crim");
   if (inject_here()) { g_step_fired++; *status = WRITE_ERROR; g_trace.push_back({"crim", *status}); return *status; }
   int r = real(f, bitpix, naxis, naxes, status); g_trace.push_back({"crim", r}); return r;
 }
 extern "C" int ffppx(fitsfile* f, int dt, long* fp, LONGLONG n, void* a, int* status) {
   static auto real = (int (*)(fitsfile*, int, long*, LONGLONG, void*, int*))dlsym(RTLD_NEXT, "ffppx");
   if (!TOP) return real(f, dt, fp, n, a, status);
-  Depth d;
+  Depth d("ppx");
   if (inject_here()) { g_step_fired++; *status = WRITE_ERROR; g_trace.push_back({"ppx", *status}); return *status; }
   int r = real(f, dt, fp, n, a, status); g_trace.push_back({"ppx", r}); return r;
 }
 extern "C" int ffpky(fitsfile* f, int dt, const char* k, void* v, const char* c, int* status) {
   static auto real = (int (*)(fitsfile*, int, const char*, void*, const char*, int*))dlsym(RTLD_NEXT, "ffpky");
   if (!TOP) return real(f, dt, k, v, c, status);
-  Depth d;
+  Depth d("pky");
   if (inject_here()) { g_step_fired++; *status = WRITE_ERROR; g_trace.push_back({"pky", *status}); return *status; }
   int r = real(f, dt, k, v, c, status); g_trace.push_back({"pky", r}); return r;
 }
 extern "C" int ffuky(fitsfile* f, int dt, const char* k, void* v, const char* c, int* status) {
   static auto real = (int (*)(fitsfile*, int, const char*, void*, const char*, int*))dlsym(RTLD_NEXT, "ffuky");
   if (!TOP) return real(f, dt, k, v, c, status);
-  Depth d;
+  Depth d("uky");
   if (inject_here()) { g_step_fired++; *status = WRITE_ERROR; g_trace.push_back({"uky", *status}); return *status; }
   int r = real(f, dt, k, v, c, status); g_trace.push_back({"uky", r}); return r;
 }
 extern "C" int ffflus(fitsfile* f, int* status) {
   static auto real = (int (*)(fitsfile*, int*))dlsym(RTLD_NEXT, "ffflus");
   if (!TOP) return real(f, status);
-  Depth d;
+  Depth d("flus");
   if (inject_here()) { g_step_fired++; *status = WRITE_ERROR; g_trace.push_back({"flus", *status}); return *status; }
   int r = real(f, status); g_trace.push_back({"flus", r}); return r;
 }
 extern "C" int ffclos(fitsfile* f, int* status) {
   static auto real = (int (*)(fitsfile*, int*))dlsym(RTLD_NEXT, "ffclos");
   if (!TOP) return real(f, status);
-  Depth d;
+  Depth d("clos");
   if (inject_here()) {   // the handle is released and the data flushed, but the close reports an error (as a failing fclose does)
     g_step_fired++; int s = 0; real(f, &s); *status = FILE_NOT_CLOSED; g_trace.push_back({"clos", *status}); return *status;
   }
@@ -162,7 +164,7 @@ extern "C" int ffclos(fitsfile* f, int* status) {
 extern "C" int ffdelt(fitsfile* f, int* status) {
   static auto real = (int (*)(fitsfile*, int*))dlsym(RTLD_NEXT, "ffdelt");
   if (!TOP) return real(f, status);
-  Depth d;
+  Depth d("delt");
   int r = real(f, status); g_trace.push_back({"delt", r}); return r;
 }
 
@@ -223,10 +225,22 @@ static int model_here(long n, bool every_byte, Rng& r) {
 
 struct Gen { std::vector<uint32_t> ord; std::vector<std::vector<double>> kn; std::vector<float> coef; };
 
-// classes: 0 minimal (about one block per HDU), 1 small, 2 medium (<= 20 blocks), 3 large (40..120 blocks), 4 huge (several hundred blocks)
+// classes: 0 minimal (about one block per HDU), 1 small, 2 medium (<= 20 blocks), 3 large (40..120 blocks), 4 huge (several hundred blocks),
+// 5 header overflow: a coefficient array larger than cfitsio's 40 block buffers (n^nd coefficients, n = 36 quick / 47 thorough for nd = 3)
+//   which gets 30 aux keys, so that the primary header needs a second block after the image has been written
+static bool g_thorough = false;
 static void gen_table(Rng& r, Gen& g, int nd, int cls) {
   g.ord.assign(nd, 0);
   for (auto& o : g.ord) o = r.range(0, cls == 0 ? 2 : 4);
+  if (cls == 5) {
+    int n = g_thorough ? 47 : 36;
+    g.kn.clear();
+    for (int i = 0; i < nd; i++) g.kn.push_back(gen_knots(r, g.ord[i], n - (int)g.ord[i] - 1, r.range(0, 3)));
+    g.coef.resize(ncoef(g.ord, g.kn));
+    for (auto& c : g.coef) c = (float)(r.unit() * 2 - 1);
+    stats["ndim_" + std::to_string(nd)]++; stats["class_5"]++;
+    return;
+  }
   uint64_t target;  // coefficient count
   switch (cls) { case 0: target = 1 + r.below(8); break; case 1: target = 50 + r.below(600); break; case 2: target = 800 + r.below(6000); break;
                  case 3: target = 30000 + r.below(50000); break; default: target = 220000 + r.below(150000); break; }
@@ -290,7 +304,7 @@ static void emit_E(const Table& t, int variant, const Run& R, const std::string&
 
 int main(int argc, char** argv) {
   if (argc < 6) { fprintf(stderr, "usage: c08_harness <quick|thorough> <dir> <cases> <impl> <stats>\n"); return 2; }
-  bool thorough = std::string(argv[1]) == "thorough";
+  bool thorough = std::string(argv[1]) == "thorough"; g_thorough = thorough;
   g_dir = argv[2];
   fc = fopen(argv[3], "w"); fi = fopen(argv[4], "w");
   if (!freopen((g_dir + "/cfitsio_stderr.txt").c_str(), "w", stderr)) return 3;
@@ -304,6 +318,7 @@ int main(int argc, char** argv) {
   if (thorough) {
     for (int nd = 1; nd <= 5; nd++) { plan.push_back({nd, 3}); plan.push_back({nd, 4}); }
   }
+  plan.push_back({3, 5});   // header overflow after the image has been written (cfitsio shifts the data by one block)
 
   long total_faults = 0, total_fired = 0;
   for (size_t it = 0; it < plan.size(); it++) {
@@ -332,9 +347,10 @@ int main(int argc, char** argv) {
     if (xm <= 1) { for (int i = 0; i < 2 * nd; i++) t.extents[0][i] += (r.unit() - 0.5); stats["extents_nondefault"]++; }
     bool no_extents = false; double* saved_ext0 = nullptr; double** saved_ext = nullptr;
     if (xm == 5) { no_extents = true; saved_ext = t.extents; t.extents = nullptr; stats["no_extents"]++; }
-    int na = r.range(0, 3) == 0 ? r.range(1, 3) : 0;
+    int na = cls == 5 ? 30 : r.range(0, 3) == 0 ? r.range(1, 3) : 0;
     for (int i = 0; i < na; i++) { std::string k = "AUXK" + std::to_string(i); std::string v = i == 0 ? "some value" : std::to_string(r.below(100000)); t.write_key(k.c_str(), v); }
     stats["naux_" + std::to_string(na)]++;
+    const bool sweep_all = thorough || cls == 5;   // every op index gets its faults
 
     // ---- healthy write with the op log recorded
     g_fail_at = -1; g_step_fail = -1; g_fail_realloc = -1; g_keep = true;
@@ -342,6 +358,8 @@ int main(int argc, char** argv) {
     g_keep = false;
     std::vector<Op> ops; for (auto& o : g_log) if (o.kind == 'W' || o.kind == 'F' || o.kind == 'C' || o.kind == 'T') ops.push_back(o);
     std::vector<StepRec> htrace = H.trace;
+    if (getenv("C08_OPLOG")) { FILE* fo = fopen((std::string(getenv("C08_OPLOG")) + "." + std::to_string(it)).c_str(), "w");
+      for (size_t k = 0; k < ops.size(); k++) fprintf(fo, "%zu %c off=%ld len=%ld step=%s#%d\n", k, ops[k].kind, ops[k].off, ops[k].len, ops[k].step, ops[k].stepno); fclose(fo); }
     std::vector<unsigned char> F; slurp(path, F);
     // the table as the model needs it: numbers as bit patterns, the cards the model does not generate as hex data
     {
@@ -422,7 +440,7 @@ int main(int argc, char** argv) {
     {
       std::vector<int> idx;
       int n = (int)ops.size();
-      if (thorough || n <= 48) for (int k = 0; k < n; k++) idx.push_back(k);
+      if (sweep_all || n <= 48) for (int k = 0; k < n; k++) idx.push_back(k);
       else { for (int k = 0; k < 12; k++) idx.push_back(k); for (int k = n - 24; k < n; k++) idx.push_back(k); for (int j = 0; j < 12; j++) idx.push_back(12 + (int)r.below(n - 36)); }
       for (int k : idx) for (int kind = 0; kind < F_NKINDS; kind++) {
         char ok = ops[k].kind;
@@ -437,7 +455,7 @@ int main(int argc, char** argv) {
           total_faults++; total_fired += R.fired ? 1 : 0;
           stats[std::string("fault_") + kindname[kind]]++; if (R.fired) stats[std::string("fault_fired_") + kindname[kind]]++;
           stats[R.ret ? "fault_reported_failure" : "fault_reported_success"]++;
-          char tag[64]; snprintf(tag, sizeof tag, "libc:%s@%d", kindname[kind], k);
+          char tag[64]; snprintf(tag, sizeof tag, "libc:%s/%s@%d", kindname[kind], ops[k].step, k);
           emit_E(t, variant, R, read_verdict(path, t), tag);
         }
       }
